@@ -227,6 +227,25 @@ C04_run(H, snt, dl, hops) ==
              /\ (~h.dest => (C = {} \/ \E c \in C : ~IsD(c)))
 
 (***************************************************************************)
+(* C07 at the wire level: of SEVERAL replies to one probe the earliest is  *)
+(* kept, except that a proof-of-arrival reply replaces one that is not.    *)
+(* Judged only for probes all of whose replies are in the catalogue and    *)
+(* well inside the listening window (so that every one of them was         *)
+(* accepted, whatever the schedule).                                       *)
+(***************************************************************************)
+C07_run(H, snt, dl, hops) ==
+    \A k \in DOMAIN hops : \A j \in DOMAIN snt : snt[j].ttl = hops[k].ttl =>
+        LET A == AnswersOf(H, snt, dl, j)
+            sure == \A i \in A : InCatalogue(V(H), PktOf(H, dl[i])) /\ InWindow(H, snt, dl, j, i)
+            AD == {i \in A : DestForm(V(H), snt[j].p, PktOf(H, dl[i]))}
+            pick(S) == CHOOSE i \in S : \A i2 \in S : dl[i].n <= dl[i2].n
+            w == IF AD # {} THEN pick(AD) ELSE pick(A)
+        IN (A # {} /\ sure) =>
+              /\ hops[k].addr = PktOf(H, dl[w]).src
+              /\ hops[k].dest = (AD # {})
+              /\ Abs(hops[k].rtt_us - (dl[w].t - snt[j].t)) <= H.par.poll_us
+
+(***************************************************************************)
 (* C05  RTT fidelity                                                       *)
 (***************************************************************************)
 C05_run(H, snt, dl, hops) ==
